@@ -407,9 +407,11 @@ func c04R4(p *Prog, r *Report) {
 func c04R5(p *Prog, r *Report) {
 	const rule = "C04-R5"
 	r.Rule(rule, "sliding-window formula agreement: the combined Add and the split IsOk+MustAdd implement one window — same ahead / behind / seen conditions, same number of ring blocks cleared, same bit set — and the number of blocks cleared when the window advances is the difference of the block indices of the new and the previous newest counter capped by the ring length (not a function of the counter difference)")
-	isok := p.Func("ss2022", "SlidingWindowFilter", "IsOk")
-	madd := p.Func("ss2022", "SlidingWindowFilter", "MustAdd")
-	add := p.Func("ss2022", "SlidingWindowFilter", "Add")
+	// analysed with unexported helpers expanded: how the window code is split into helpers
+	// must not matter
+	isok := p.Inlined(p.Func("ss2022", "SlidingWindowFilter", "IsOk"))
+	madd := p.Inlined(p.Func("ss2022", "SlidingWindowFilter", "MustAdd"))
+	add := p.Inlined(p.Func("ss2022", "SlidingWindowFilter", "Add"))
 	condSet := func(fc *FuncCtx) map[string]bool {
 		out := map[string]bool{}
 		for _, v := range fc.G.V {
